@@ -97,8 +97,8 @@ FLAT_MAP = T("HashMap<String, String>", ['(a = "1")'], [], flattenable=True,
              flat_items=[[], ['zz = "1"'], ['extra = "x"', 'more = "y"']])
 
 IDENTS = ["alpha", "beta_gamma", "count", "name", "kind_of", "x1", "max_len", "is_on", "path_to", "label", "lorem_ipsum",
-          "dolor", "sit_amet", "level", "mode", "tag_list", "depth_limit", "v", "w2", "zeta"]
-VIDENTS = ["Alpha", "BetaGamma", "Unit", "NewT", "Conf", "LoremIpsum", "X", "HttpGet", "Other", "Zed"]
+          "dolor", "sit_amet", "level", "mode", "tag_list", "depth_limit", "v", "w2", "zeta", "r#type", "r#fn"]
+VIDENTS = ["Alpha", "BetaGamma", "Unit", "NewT", "Conf", "LoremIpsum", "X", "HttpGet", "Other", "Zed", "r#type", "r#move"]
 
 receivers = []   # dicts
 types_by_name = {}
@@ -191,8 +191,9 @@ def gen_fields(nf, allow_flatten=True):
         depth = max(depth, ty.depth)
         f["ty"] = ty
         if not f["flatten"] and not f["skip"]:
-            if rng.random() < 0.2:
-                f["rename"] = rng.choice(["Custom%d" % k, "renamed_%d" % k, "Type", "r%d" % k])
+            if rng.random() < 0.25:
+                # sometimes a rename to the field's own Rust name: the usual way to opt one field out of `rename_all`
+                f["rename"] = rng.choice(["Custom%d" % k, "renamed_%d" % k, "Type", "r%d" % k, f["ident"], f["ident"]])
                 opts.append('rename = "%s"' % f["rename"])
             base_rust = f["elem"].rust if f["multiple"] else ty.rust
             r2 = rng.random()
@@ -229,6 +230,9 @@ def gen_fields(nf, allow_flatten=True):
 def finish_fields(fields, rule, container_default):
     """effective names and requiredness; None when effective names collide"""
     for f in fields:
+        # raw identifiers keep their `r#`; the case rules of the external crate are not mirrored for them here
+        if f["ident"].startswith("r#") and rule is not None and not f.get("rename"):
+            return False
         f["name"] = f.get("rename") or to_field(rule, f["ident"])
         f["addressable"] = not f["skip"] and not f["flatten"]
         has_dflt = f["default"] is not None or container_default or f["skip"]
@@ -358,7 +362,7 @@ def gen_enum(idx):
     allow_unknown = rng.random() < 0.15
     depth = 0
     for k in range(nv):
-        ident = rng.choice([i for i in VIDENTS if i not in used])
+        ident = rng.choice([i for i in VIDENTS if i not in used and not (i.startswith("r#") and rule not in (None, "snake_case", "lowercase"))])
         used.add(ident)
         v = dict(ident=ident, skip=False, word=False, opts=[])
         kind = rng.choice(["unit", "unit", "newtype", "struct"])
@@ -725,7 +729,7 @@ def gen_outers(out, infos):
 
 def main():
     out = ["//! GENERATED by harness/gen/gen_fm.py — the compiled corpus of `FromMeta` receivers.",
-           "#![allow(dead_code, unused_imports, non_snake_case, clippy::all)]",
+           "#![allow(dead_code, unused_imports, non_snake_case, non_camel_case_types, clippy::all)]",
            "use crate::fns;", "use crate::recv::{FieldInfo, OuterEntry, OuterInfo, OuterRun, RecvInfo};", "use darling::ast;",
            "use darling::{FromAttributes, FromDeriveInput, FromField, FromTypeParam, FromVariant};", "use darling::util::WithOriginal;", "use crate::sx::*;", "use crate::types::{mk, TyEntry};",
            "use crate::vals::Canon;", "use darling::util::{Flag, Override, SpannedValue};", "use darling::FromMeta;",
